@@ -14,7 +14,7 @@ package fasthttp
 // decodeArgAppendNoPlus: only what normalizePath needs -- the result extends dst, and when dst is empty and src starts
 // with a literal (non-%) byte, that byte comes first.
 //@ func decodeArgAppendNoPlus results r
-//@   property C26
+//@   property C26 C27 C08
 //@   uses lemma byteTables
 //@   modifies dst
 //@   ensures[grown] extends(r, dst)
@@ -51,3 +51,66 @@ package fasthttp
 //@   loop 3:
 //@     invariant[shape] 1 <= len(b) && b[0] == '/' && noSS(b, len(b)) && noSDS(b, len(b))
 //@     invariant[storage] rgn(b) == rgn(dst) && off(b) == off(dst) && cap(b) == cap(dst)
+
+// ---- percent-encoding of paths and query arguments (C27, C28) ----
+// qpos(s, j): where the j-th input byte lands in the quoted output (1 byte when kept, 3 when escaped).
+//@ spec qpathw(c int) int = ispathsafe(c) ? 1 : 3
+//@ spec qpos(s []byte, j int) int = j <= 0 ? 0 : qpos(s, j-1) + qpathw(s[j-1])
+//@ spec qargw(c int) int = (c == ' ' || isunreserved(c)) ? 1 : 3
+//@ spec qapos(s []byte, j int) int = j <= 0 ? 0 : qapos(s, j-1) + qargw(s[j-1])
+
+// appendQuotedPath: every input byte is either copied (path-safe bytes) or written as %XY with X = upperhex[c>>4],
+// Y = upperhex[c&15] (upperhex is the digit table proved in lemma byteTables), in input order; nothing else is appended. (A lone "*" is copied as is.)
+//@ func appendQuotedPath results r
+//@   property C27
+//@   uses lemma byteTables
+//@   modifies dst
+//@   ensures[grown] extends(r, dst)
+//@   ensures[length] !(len(src) == 1 && src[0] == '*') ==> len(r) == len(dst) + qpos(src, len(src))
+//@   ensures[bytes] !(len(src) == 1 && src[0] == '*') ==> forall j in [0, len(src)):
+//@                    (ispathsafe(src[j]) ? r[len(dst) + qpos(src, j)] == src[j]
+//@                                        : (r[len(dst) + qpos(src, j)] == '%' && r[len(dst) + qpos(src, j) + 1] == upperhex[src[j] >> 4] &&
+//@                                           r[len(dst) + qpos(src, j) + 2] == upperhex[src[j] % 16]))
+//@   loop 1:
+//@     invariant[grown] extends(dst, old(dst))
+//@     invariant[length] len(dst) == len(old(dst)) + qpos(src, _i)
+//@     invariant[positions] forall j in [0, _i): 0 <= qpos(src, j) && qpos(src, j) + qpathw(src[j]) <= qpos(src, _i)
+//@     invariant[kept-bytes] forall j in [0, _i): ispathsafe(src[j]) ==> dst[len(old(dst)) + qpos(src, j)] == src[j]
+//@     invariant[escaped-percent] forall j in [0, _i): !ispathsafe(src[j]) ==> dst[len(old(dst)) + qpos(src, j)] == '%'
+//@     invariant[escaped-high] forall j in [0, _i): !ispathsafe(src[j]) ==> dst[len(old(dst)) + qpos(src, j) + 1] == upperhex[src[j] >> 4]
+//@     invariant[escaped-low] forall j in [0, _i): !ispathsafe(src[j]) ==> dst[len(old(dst)) + qpos(src, j) + 2] == upperhex[src[j] % 16]
+
+// AppendQuotedArg: ' ' becomes '+', unreserved bytes are copied, everything else is written as %XY (same digits table).
+//@ func AppendQuotedArg results r
+//@   property C27 C28
+//@   uses lemma byteTables
+//@   modifies dst
+//@   ensures[grown] extends(r, dst)
+//@   ensures[length] len(r) == len(dst) + qapos(src, len(src))
+//@   ensures[bytes] forall j in [0, len(src)):
+//@                    (src[j] == ' ' ? r[len(dst) + qapos(src, j)] == '+' :
+//@                     isunreserved(src[j]) ? r[len(dst) + qapos(src, j)] == src[j]
+//@                                        : (r[len(dst) + qapos(src, j)] == '%' && r[len(dst) + qapos(src, j) + 1] == upperhex[src[j] >> 4] &&
+//@                                           r[len(dst) + qapos(src, j) + 2] == upperhex[src[j] % 16]))
+//@   loop 1:
+//@     invariant[grown] extends(dst, old(dst))
+//@     invariant[length] len(dst) == len(old(dst)) + qapos(src, _i)
+//@     invariant[positions] forall j in [0, _i): 0 <= qapos(src, j) && qapos(src, j) + qargw(src[j]) <= qapos(src, _i)
+//@     invariant[space-bytes] forall j in [0, _i): src[j] == ' ' ==> dst[len(old(dst)) + qapos(src, j)] == '+'
+//@     invariant[kept-bytes] forall j in [0, _i): isunreserved(src[j]) ==> dst[len(old(dst)) + qapos(src, j)] == src[j]
+//@     invariant[escaped-percent] forall j in [0, _i): src[j] != ' ' && !isunreserved(src[j]) ==> dst[len(old(dst)) + qapos(src, j)] == '%'
+//@     invariant[escaped-high] forall j in [0, _i): src[j] != ' ' && !isunreserved(src[j]) ==> dst[len(old(dst)) + qapos(src, j) + 1] == upperhex[src[j] >> 4]
+//@     invariant[escaped-low] forall j in [0, _i): src[j] != ' ' && !isunreserved(src[j]) ==> dst[len(old(dst)) + qapos(src, j) + 2] == upperhex[src[j] % 16]
+
+// decodeArgAppend: memory safety, termination, and the output only grows dst (each %XY with hex digits becomes one
+// byte, '+' becomes ' ', everything else is copied; a truncated or non-hex escape is copied literally).
+//@ func decodeArgAppend results r
+//@   property C27 C28 C08
+//@   uses lemma byteTables
+//@   modifies dst
+//@   ensures[grown] extends(r, dst)
+//@   ensures[never-longer] len(r) <= len(dst) + len(src)
+//@   loop 1:
+//@     invariant[range] idx <= i && i <= len(src) && 0 <= idx
+//@     invariant[grown] extends(dst, old(dst))
+//@     invariant[never-longer] len(dst) <= len(old(dst)) + i
